@@ -431,8 +431,64 @@ def _cpl(st):
         if np.any(others != 0.0):
             viol.append({"fp": dict(fp0, cls="abs-hq-nlo-rows"), "fpkey": {"cls": "abs-hq-nlo-rows", "kind": st["kind"], "heavyness": st["heavyness"], "scheme": st["scheme"]},
                          "msg": f"{name} EM {st['scheme']} x={x!r} Q2={Q2}: the O(a_s) operator of heavy-quark pair production has non-zero light-quark rows (only the gluon and the intrinsic heavy quark enter at this order)"})
+    # assignment table of the massive calculation (FFNS, heavy-flavour observable): gluon <- VV_h GluonVV + AA_h GluonAA, every light (anti)quark <- VV_h SingletVV + AA_h SingletAA,
+    # with the PDG couplings of the heavy quark and the library's coefficient classes taken BY NAME (not from the kernel list the engine assembled), convolved by the reference
+    worst_asg = 0.0
+    if h is not None and st["scheme"].startswith("FFNS") and not viol:
+        from yadism.coefficient_functions.heavy import kernels as hk
+
+        ci = 4
+        c = _CPL_CONFIGS[ci]
+        cell = {"process": c[0], "projectile": c[1], "scheme": st["scheme"], "pto": st["pto"], "grid": st["grid"],
+                "theory": {"RenScaleVar": False, "FactScaleVar": False, "SIN2TW": c[3], "MZ": c[4]}, "obscard": {"PolarizationDIS": c[2], "PropagatorCorrection": c[5]}}
+        esf = yrun.runner(cell, {name: [cards.kin(x, Q2)]}).observables[name].elements[-1]
+        pcs = hk.import_pc_module(st["kind"], "NC")
+        m2 = _MASS[h] ** 2
+        vv, aa = ref_ew.nc_weight_split(h, c[0], c[1], c[2], Q2, c[4], c[3], c[5])
+        g, d, lg = cards.grid(st["grid"])
+        basis = ref_basis.RefBasis(g, d, lg)
+        zt = Q2 / (Q2 + 4.0 * m2)
+        xb = (zt, zt * (1 - 1e-9), zt * (1 - 1e-4), zt * (1 - 1e-2))
+        table = {"g": [("GluonVV", vv), ("GluonAA", aa)], "q": [("SingletVV", vv), ("SingletAA", aa)]}
+        for k in range(1, st["pto"] + 1):
+            key = (k, 0, 0, 0)
+            if key not in runs[ci]:
+                continue
+            val, err = runs[ci][key]
+            for row, lst in table.items():
+                pred = np.zeros(basis.n)
+                scl = np.zeros(basis.n)
+                perr = np.zeros(basis.n)
+                for cname, w in lst:
+                    kw = {"n3lo_cf_variation": 0} if cname.endswith("VV") else {}
+                    obj = getattr(pcs, cname)(esf, nf, m2hq=m2, **kw)
+                    rsl = obj[k]()
+                    ntrans += 1
+                    if rsl is None:
+                        continue
+                    delta = float(rsl.loc(0.0, rsl.args["loc"])) if rsl.loc is not None else 0.0
+                    for j in range(basis.n):
+                        sup = basis.support(j)
+                        if x >= sup[1] or not (0 < x < 1 - ref_conv.EPS_BORDER):
+                            continue
+                        v, e = ref_conv.convolve(rsl.reg, rsl.args["reg"], rsl.sing, rsl.args["sing"], delta, lambda y, j=j: basis.p(j, y), x, sup, basis.x, extra_breaks=xb)
+                        pred[j] += w * x * v
+                        scl[j] += abs(w * x * v)
+                        perr[j] += abs(w) * x * e
+                rows_i = [yrun.PIDX[21]] if row == "g" else [yrun.PIDX[pp] for q in range(1, nf + 1) for pp in (q, -q)]
+                for i in rows_i:
+                    sc = scl + np.abs(val[i])
+                    tol = RTOL[k] * (sc + sc.max()) + ERRFAC * (err[i] + perr) + 1e-300
+                    dlt = np.abs(val[i] - pred)
+                    if sc.max() > 0:
+                        worst_asg = max(worst_asg, float((dlt / (sc + sc.max())).max()))
+                    if np.any(dlt > tol):
+                        j = int(np.argmax(dlt - tol))
+                        viol.append({"fp": dict(fp0, cls="hq-assignment", pid=int(yrun.PIDS[i]), key=list(key)), "fpkey": {"cls": "hq-assignment", "kind": st["kind"], "heavyness": st["heavyness"], "scheme": st["scheme"], "gluon": row == "g", "order": k},
+                                     "msg": f"{name} NC {c[1]} (P={c[2]}, sin2thetaW={c[3]}, MZ={c[4]}) {st['scheme']} x={x!r} ({st['xlab']}) Q2={Q2}: key {key} row pid={yrun.PIDS[i]} [j={j}] = {val[i][j]:.10g}, but VV_{h} x {lst[0][0]} + AA_{h} x {lst[1][0]} (PDG couplings of the heavy quark, reference convolution) = {pred[j]:.10g} (|delta|={dlt[j]:.3e}, tol={tol[j]:.3e})"})
+                        break
     return {"violations": viol, "nontrivial": nontrivial, "outcome": digest([yrun.res_digest_t(r) if hasattr(yrun, "res_digest_t") else sorted((str(k), float(np.abs(v[0]).sum())) for k, v in r.items()) for r in runs]), "transitions": ntrans,
-            "info": {"maxrel_cpl_linearity": worst, "maxrel_abs_hq_nlo": worst_abs}}
+            "info": {"maxrel_cpl_linearity": worst, "maxrel_abs_hq_nlo": worst_abs, "maxrel_hq_assignment": worst_asg}}
 
 
 def execute(st):
